@@ -232,6 +232,57 @@ def r8(ctx):
         raise AnalysisBroken('C09.R8: assignment of pt_slaveData not found in DataField::create')
 
 
+def symbol_layout_rule(ctx, rid):
+    ctx.rule(rid, 'the inline accessors of SymbolString agree on the telegram layout: the length byte NN is at offset 4 of a master '
+             'string and 0 of a slave string (adjustHeader, getDataSize, getCalculatedDataSize, isComplete), the data starts '
+             'behind it at 5 / 1 (getDataOffset, dataAt const and non-const); adjustHeader stores size - offset - 1, '
+             'getDataSize never reports more bytes than are stored, the const dataAt tests the offset against the size before '
+             'it reads', minimum=9, star=True)
+    fb = ctx.fb
+    seen = set()
+    n = 0
+    import re
+    for fn in fb.functions:
+        if not fn.relfile.endswith('lib/ebus/symbol.h') or not fn.blocks or fn.cls != 'ebusd::SymbolString':
+            continue
+        ident = (fn.name, fn.sig)
+        if ident in seen:
+            continue
+        seen.add(ident)
+        base = fn.name.split('::')[-1]
+        for x in fn.all('ConditionalOperator'):
+            v = fn.nodes[x]
+            if fn.key(v['cond']) != 'this.m_isMaster':
+                continue
+            arms = (fn.val(v['then']), fn.val(v['else']))
+            want = (5, 1) if base in ('dataAt', 'getDataOffset') else (4, 0)
+            n += 1
+            ctx.ob(rid, fn, x, arms == want, 'layout constant in %s' % base, 'master/slave offsets %s, expected %s' % (arms, want))
+        if base == 'adjustHeader':
+            lo = fn.local_where(lambda k, r: k == '(this.m_isMaster ? #4 : #0)')
+            st = [fn.key(rhs) for nid, d, rhs, op, lhs in fn.assignments() if lhs is not None and rhs is not None and
+                  lo and fn.key(lhs) == 'this.m_data[%s]' % lo[0]]
+            ok = bool(lo) and st == ['(ebusd::symbol_t)((this.m_data.size() - %s) - #1)' % lo[0]]
+            n += 1
+            ctx.ob(rid, fn, fn.body, ok, 'adjustHeader stores the number of bytes behind NN', '%s' % st)
+        if base == 'getDataSize':
+            rets = [fn.key(fn.nodes[r]['val']) for r in fn.all('ReturnStmt') if fn.nodes[r].get('val') is not None]
+            lo = fn.local_where(lambda k, r: k == '(this.m_isMaster ? #4 : #0)')
+            nn = fn.local_where(lambda k, r: lo and k == 'this.m_data[%s]' % lo[0])
+            want = '((this.m_data.size() < ((%s + #1) + %s)) ? ((this.m_data.size() - %s) - #1) : %s)' % (lo[0], nn[0], lo[0], nn[0]) if lo and nn else None
+            n += 1
+            ctx.ob(rid, fn, fn.body, want in rets and '#0' in rets, 'getDataSize is limited to the stored bytes', '%s' % rets)
+        if base == 'dataAt' and 'const' in fn.sig.split(')')[-1]:
+            off = fn.local_where(lambda k, r: k.startswith('((this.m_isMaster ? #5 : #1) + '))
+            reads = [x for x in fn.all('CXXOperatorCallExpr') if fn.nodes[x].get('op') == '[]' and off and
+                     fn.key(x) == 'this.m_data[%s]' % off[0]]
+            ok = bool(off) and bool(reads) and all(fn.needs_one_of(x, [('(%s < this.m_data.size())' % off[0], True)]) for x in reads)
+            n += 1
+            ctx.ob(rid, fn, fn.body, ok, 'const dataAt reads inside the stored bytes', 'offset tested against the size before the read: %s' % ok)
+    if n < 9:
+        raise AnalysisBroken('%s: only %d layout sites found in symbol.h' % (rid, n))
+
+
 def run(ctx):
     r1(ctx)
     r2(ctx)
@@ -243,3 +294,4 @@ def run(ctx):
                'slot that checkId selects')
     r7(ctx)
     r8(ctx)
+    symbol_layout_rule(ctx, 'C09.R9')
